@@ -31,10 +31,13 @@ import (
 type c20Input struct {
 	Ops []c20Op `json:"ops"`
 	Dt  int     `json:"dt"` // seconds between the last block and the import time
+	// EmptyWl: the chain's own genesis has an empty oracle whitelist (boundary of the theorem's
+	// hypothesis [wo'_pairs_nonempty]; not generated, replay only)
+	EmptyWl bool `json:"empty_wl,omitempty"`
 }
 
 func c20Run(t *testing.T, in c20Input) (obs map[string]interface{}, extra map[string]interface{}) {
-	w := newC20World(t)
+	w := newC20World(t, in.EmptyWl)
 	for _, op := range in.Ops {
 		w.apply(op)
 	}
@@ -156,7 +159,7 @@ func genC20Case(r *Rng) c20Input {
 	var ops []c20Op
 	add := func(k string, a, b, c int) { ops = append(ops, c20Op{K: k, A: a, B: b, C: c}) }
 	single := func() {
-		switch r.Pick(3, 2, 2, 2, 2, 2, 2, 2, 2, 2, 2, 2, 2, 2, 2, 2, 2) {
+		switch r.Pick(3, 2, 2, 2, 2, 2, 2, 2, 2, 2, 2, 2, 2, 2, 2, 2, 2, 3) {
 		case 0:
 			add("sstore", r.Intn(4), r.Intn(4), r.Intn(4))
 		case 1:
@@ -191,6 +194,8 @@ func genC20Case(r *Rng) c20Input {
 			add("ftcoin", r.Intn(2), r.Intn(4), 0)
 		case 16:
 			add("or_alloc", r.Intn(50), r.Intn(4), 0)
+		case 17:
+			add("or_params", r.Intn(31), 0, 0)
 		}
 	}
 	nseg := r.Range(4, 10)
